@@ -95,3 +95,34 @@ contract(SH + "shaving_consistency_algorithm", variant="acc", types=ENGINE_T, pr
     call_ghosts=SHB.extra["call_ghosts"], modifies=SHB.modifies, loops={1: lo},
     ensures=[c for c in SHB.ensures if c[0] != "C02.preserve"] + ACC_ENS,
     tags={"C01": ["C01"], "C10": ["C01"], "C08": ["C01"], "C07": ["C01"], "C17": ["C01"], "C09": ["C01"], "wf": ["C16"]}, arities=[], timeout_ms=200000)
+
+
+# ------------------------------------------------------------------ fixpoint layer (C08) through shaving: the probe pass and the outer passes start from FixPre
+FA_TOP = FIX_A(SS)
+FK_TOP = FIX_K(SS, "triggered_propagators", "-1")
+PT = "old(stacks_top)[0]"  # the level being shaved; the probe level is PT + 1
+# the probe level PT+1 is the old row with dom_idx fixed to one bound (events: what the value heuristic returned, plus GROUND)
+PROBE_ROW = f"axiom_fix_frame(old({SS}), {PT}, {SS}, {PT} + 1, dom_idx, events)"
+# the level PT after the call: the old row minus one bound value, announced by the recorded update; or the old row itself (restored)
+SHAVED_ROW = f"axiom_fix_frame(old({SS}), {PT}, {SS}, {PT}, dom_idx, dom_update_stack[{PT}, DOM_UPDATE_EVENTS])"
+RESTORED_ROW = f"axiom_fix_frame(old({SS}), {PT}, {SS}, {PT}, dom_idx, 0)"
+contract(SH + "shave_bound", variant="fix", types=SB_T, result="bool", props=["C08", "C01", "C02"],
+    requires=list(SBB.requires) + [NOALIAS, AFFEQ_FULL, ("C08.A0", FA_TOP)],
+    ghost_results=SBB.extra["ghost_results"], ghost=SBB.ghost, call_ghosts=SBB.extra["call_ghosts"], modifies=SBB.modifies,
+    calls={"bound_consistency_algorithm": BCQ + "#fix"},
+    hints=[SHAVED_ROW, RESTORED_ROW], call_hints={"bound_consistency_algorithm": [PROBE_ROW]},
+    ensures=[c for c in SBB.ensures if "preserve" not in c[0]] + [
+        ("C08.restored", f"implies(not result, {FA_TOP})"),
+        ("C08.shaved", f"implies(result, {FK_TOP})")],
+    tags={"C08": ["C08", "C01", "C02"], "C10": ["C08"], "C17": ["C08"], "wf": ["C16"]}, arities=[], timeout_ms=200000)
+
+flo = dict(SHB.loops[1])
+flo["invariant"] = [c for c in flo["invariant"] if "preserve" not in c[0]] + [("C08.state", f"ite(has_shaved, {FK_TOP}, {FA_TOP})")]
+for _k in ("decreases", "hints", "step_hints", "step_ensures"):
+    flo.pop(_k, None)
+contract(SH + "shaving_consistency_algorithm", variant="fix", types=ENGINE_T, props=["C08", "C01", "C02"],
+    requires=list(SHB.requires) + FIX_REQ, ghost=SHB.ghost,
+    calls={"bound_consistency_algorithm": BCQ + "#fix", "shave_bound": SH + "shave_bound#fix"},
+    call_ghosts=SHB.extra["call_ghosts"], modifies=SHB.modifies, loops={1: flo},
+    ensures=[c for c in SHB.ensures if c[0] != "C02.preserve"] + FIX_ENS,
+    tags={"C08": ["C08", "C01", "C02"], "C10": ["C08"], "C07": ["C08"], "C17": ["C08"], "C09": ["C08"], "wf": ["C16"]}, arities=[], timeout_ms=200000)
